@@ -8,7 +8,7 @@ file byte-identical and listed as failed by every codemod that selected it, repo
 Faults in the transformer / a vanishing file are injected from the harness (core.run_cli(preload=...)): wrappers around
 LibcstResultTransformer.transform and BaseCodemod._process_file installed in the child before main(); no repository hook.
 Model: coq/Model/Run.v evaluated with the oracle values observed in the REFERENCE run and asked to predict the FAULTY run.
-The regex pipeline (no try/except: `C10_regex_refuted`) is exercised in-process through the real classes."""
+The regex pipeline (no try/except: `C10_isolation_regex`) is exercised in-process through the real classes."""
 from __future__ import annotations
 
 import base64
@@ -67,20 +67,26 @@ PRELOAD_RAISE = '''
 import os as _os
 from codemodder.codemods import libcst_transformer as _lt
 _orig_transform = _lt.LibcstResultTransformer.transform.__func__
-def _faulty_transform(cls, module, results, file_context):
-    if str(file_context.file_path).endswith(_os.environ["VERIF_BAD_FILE"]):
+def _faulty_transform(cls, *args, **kwargs):
+    # the FileContext is found by type, not by position or keyword name
+    from codemodder.file_context import FileContext as _FC
+    fc = next((a for a in list(args) + list(kwargs.values()) if isinstance(a, _FC)), None)
+    if fc is not None and str(fc.file_path).endswith(_os.environ["VERIF_BAD_FILE"]):
         raise RuntimeError("injected transformer fault")
-    return _orig_transform(cls, module, results, file_context)
+    return _orig_transform(cls, *args, **kwargs)
 _lt.LibcstResultTransformer.transform = classmethod(_faulty_transform)
 '''
 PRELOAD_DELETE = '''
 import os as _os
 from codemodder.codemods import base_codemod as _bc
 _orig_process_file = _bc.BaseCodemod._process_file
-def _vanishing_process_file(self, filename, context, results, rules):
-    if str(filename).endswith(_os.environ["VERIF_BAD_FILE"]) and _os.path.exists(filename):
+def _vanishing_process_file(self, *args, **kwargs):
+    # the file is the first path-like argument, whatever the parameters are called
+    from pathlib import Path as _P
+    filename = next((a for a in list(args) + list(kwargs.values()) if isinstance(a, _P)), None)
+    if filename is not None and str(filename).endswith(_os.environ["VERIF_BAD_FILE"]) and _os.path.exists(filename):
         _os.unlink(filename)
-    return _orig_process_file(self, filename, context=context, results=results, rules=rules)
+    return _orig_process_file(self, *args, **kwargs)
 _bc.BaseCodemod._process_file = _vanishing_process_file
 '''
 
@@ -100,7 +106,30 @@ def run_cli_with_fault(R, root, pair, kind, bad):
         env_preload = f"import os\nos.environ['VERIF_BAD_FILE'] = {bad!r}\n" + PRELOAD_RAISE
     elif kind == "deleted_after_listing":
         env_preload = f"import os\nos.environ['VERIF_BAD_FILE'] = {bad!r}\n" + PRELOAD_DELETE
-    return R.run(root, list(pair), [], preload=env_preload)
+    return R.run(root, list(pair), sonar_args(root, pair), preload=env_preload)
+
+
+SONAR_PAIR = ("sonar:python/fix-assert-tuple", "sonar:python/numpy-nan-equality")
+_ISSUES = {}
+
+
+def is_sonar(pair):
+    return any(k.startswith("sonar:") for k in pair)
+
+
+def sonar_project():
+    t = rc.SONAR[SONAR_PAIR[0]][1]
+    n = rc.SONAR[SONAR_PAIR[1]][1]
+    return {"t.py": t, "u.py": t + "y = 2\n", "n.py": n, "plain.py": "VALUE = 1\n", "requirements.txt": "requests\n"}
+
+
+def sonar_args(root, pair, files=None):
+    """--sonar-issues-json <file next to the target>; the issues were computed from the ORIGINAL project (the scan predates the fault)"""
+    if not is_sonar(pair):
+        return []
+    f = root.parent / (root.name + ".issues.json")
+    f.write_text(json.dumps(_ISSUES[root]))
+    return ["--sonar-issues-json", str(f)]
 
 
 def fault_points(ctx):
@@ -119,6 +148,11 @@ def fault_points(ctx):
             for k in KINDS:
                 if len(names2) == 3 or rng.random() < 0.6:
                     pts.append((p2, PAIRS_QUICK[1], k, names2[i]))
+        # SAST-driven (Sonar) pair: the bad file carries a reported finding
+        sp = sonar_project()
+        for nm in ["t.py", "n.py", "u.py"]:
+            for k in (["invalid_utf8", "syntax_error", "transform_raises", "deleted_after_listing"] if nm != "u.py" else ["cookie_latin1", "empty_file"]):
+                pts.append((sp, SONAR_PAIR, k, nm))
         if getattr(ctx, "deep", False):
             for pair in PAIRS_MORE[:2]:
                 p = make_project(rng, pair, 3)
@@ -132,6 +166,10 @@ def fault_points(ctx):
                 for nm in rc.py_files(p):
                     for k in KINDS:
                         pts.append((p, pair, k, nm))
+        sp = sonar_project()
+        for nm in rc.py_files(sp):
+            for k in KINDS:
+                pts.append((sp, SONAR_PAIR, k, nm))
     return pts
 
 
@@ -195,7 +233,21 @@ def compare(ctx, pt, faulty, ref, root_f, root_r, tree_f, tree_r):
             viol("kf_c10_other_outcome_differs", f"{rf['codemod']}: description differs")
         if [x for x in rf["failed"] if x != bad] != rr["failed"]:
             viol("kf_c10_failed_files_differ", f"{rf['codemod']}: failedFiles {rf['failed']} vs {rr['failed']} (+ the bad file)")
-        selected = rc.det_of(rf["codemod"]) == "DNone"       # detector-less codemods select every *.py file
+        det = rc.det_of(rf["codemod"])
+        n_findings = rc.sonar_findings(files, rf["codemod"]).get(bad, 0) if det == "DSast" else 0
+        # detector-less codemods select every *.py file; a SAST-driven one selects the files its rule has findings in
+        selected = det == "DNone" or n_findings > 0
+        # "its findings reported as unfixed": every other file's unfixed findings as in the run without the bad file ...
+        uf_other = [u for u in rf["unfixed"] if u.get("path") != bad]
+        if uf_other != rr["unfixed"]:
+            viol("kf_c10_unfixed_differ", f"{rf['codemod']}: unfixedFindings of the other files differ from the run without the bad file: "
+                 f"{uf_other} vs {rr['unfixed']}")
+        # ... and the bad file's own findings all unfixed, with line 0
+        uf_bad = [u for u in rf["unfixed"] if u.get("path") == bad]
+        if kind in UNPROCESSABLE and det == "DSast" and n_findings and (len(uf_bad) != n_findings or any(u.get("lineNumber") != 0 for u in uf_bad)):
+            viol("kf_c10_findings_not_unfixed", f"{rf['codemod']}: the bad file has {n_findings} finding(s) but unfixedFindings lists {uf_bad}")
+        if kind not in UNPROCESSABLE and uf_bad and det != "DSast":
+            viol("kf_c10_spurious_failure", f"{rf['codemod']} reports unfixed findings for a processable file: {uf_bad}")
         if kind in UNPROCESSABLE and selected and bad not in rf["failed"]:
             viol("kf_c10_failure_not_listed", f"{rf['codemod']} selected the bad file but does not list it in failedFiles")
         if kind not in UNPROCESSABLE and bad in rf["failed"]:
@@ -237,7 +289,11 @@ def model_term(pt, rows_f, rows_r, tree_f, tree_r, rc_status):
         rf = next((x for x in rows_f if x["codemod"] == k), None)
         if rc.det_of(k) == "DSemgrep" and rf is not None and bad in rf["failed"]:
             flag.append(badc(bad_content))
-        cms.append(rc.c_hcodemod(A, k, rc.det_of(k), T, raise_on, flag))
+        if rc.det_of(k) == "DSast":
+            Rk = [(A.path(p), [A.content(f"finding:{k}:{p}:{i}") for i in range(n)]) for p, n in sorted(rc.sonar_findings(files, k).items())]
+            cms.append(rc.c_hcodemod(A, k, "DSast", T, raise_on, [], base="Remediation", R=Rk))
+        else:
+            cms.append(rc.c_hcodemod(A, k, rc.det_of(k), T, raise_on, flag))
         if adds:
             # with two dependency-adding codemods the intermediate manifest text is not observable; only one adds here
             W.append((A.content(cur_manifest), depid, A.content(man_after)))
@@ -253,7 +309,7 @@ def model_term(pt, rows_f, rows_r, tree_f, tree_r, rc_status):
             hx_fs.append((A.path(p), A.content(c)))
     hx_bad = [badc(bad_content)] if kind in UNDECODABLE else []
     ob_fs = [(A.path(p), badc(c) if p == bad else A.content(c)) for p, c in tree_f.items() if p in files]
-    ob_rows = [(A.codemod(r["codemod"]), [A.path(p) for p in r["changed"]], [A.path(p) for p in r["failed"]]) for r in rows_f]
+    ob_rows = [(A.codemod(r["codemod"]), [A.path(p) for p in r["changed"]], [A.path(p) for p in r["failed"]], [A.path(p) for p in rc.unfixed_paths(r)]) for r in rows_f]
     stores = [("SReqTxt", A.path("requirements.txt"), [])]
     return rc.c_hcase(False, [A.path(p) for p in names], hx_fs, hx_bad, cms, stores, W, rc_status, ob_fs, ob_rows)
 
@@ -360,13 +416,15 @@ def run(ctx: core.Ctx):
             root = R.fresh_dir("ref")
             core.write_tree(root, {p: c for p, c in files.items() if p != bad})
             refs[key] = {"root": root}
-            jobs.append(lambda root=root, pair=pair: R.run(root, list(pair)))
+            _ISSUES[root] = rc.sonar_issues(files)
+            jobs.append(lambda root=root, pair=pair: R.run(root, list(pair), sonar_args(root, pair)))
             order.append(("ref", key))
         root = R.fresh_dir(kind)
         proj = dict(files)
         if kind in CONTENT_FAULTS:
             proj[bad] = fault_content(kind, files, bad)
         core.write_tree(root, proj)
+        _ISSUES[root] = rc.sonar_issues(files)
         jobs.append(lambda root=root, pair=pair, kind=kind, bad=bad: run_cli_with_fault(R, root, pair, kind, bad))
         order.append(("fault", (pt, root, key)))
     res = rc.parallel(jobs)
@@ -407,26 +465,34 @@ def run(ctx: core.Ctx):
                          f"{kind}@{bad} {list(pair)}: the model does not predict the faulty run",
                          {"project": core.b64tree(files), "pair": list(pair), "fault_kind": kind, "bad_file": bad, "case_term": terms[i]})
 
-    # the regex pipeline: active branch of C10_regex_refuted vs the real class
+    # the regex pipeline: active branch of C10_isolation_regex vs the real class
     tv = ctx.tables or {}
     rg = tv.get("regex_apply_guards") or []
     probe = regex_pipeline_probe(ctx)
     ctx.count("regex_probe")
     ctx.notes.append(f"regex pipeline probe (real classes, undecodable b.txt between two good files): {probe}")
     has_tries = "TryParse" in rg and "TryTransform" in rg
+    # MODEL vs implementation on the regex branch: b.txt cannot be decoded; the model (with the current guard table) predicts either
+    # the aborted run or the isolated failure
+    rb = {"a.txt": "hello world\n", "b.txt": "\xff\xfe hello\n", "c.txt": "hello again\n"}
+    ra = {"a.txt": "goodbye world\n", "b.txt": "\xff\xfe hello\n", "c.txt": "goodbye again\n"}
+    term = rc.probe_hcase("PRegex", rb, ra, ["b.txt"], {"changed": probe["changed"], "failed": probe["failed"], "raised": probe["raised"],
+                                                        "tree": probe["files"]}, False)
+    if core.eval_bad_indices(ctx, "c10_regex_probe", rc.IMPORTS, "hcase", [term], ["run_model_ok"])["run_model_ok"]:
+        ctx.mismatch("regex pipeline probe vs Model.Run.run at PRegex", f"the model does not predict the probe: {probe}", {"probe": probe, "case_term": term})
     if probe["raised"]:
         if has_tries:
             ctx.mismatch("RegexTransformerPipeline.apply vs regex_apply_guards", f"tables say both try blocks are present but {probe['raised']} escaped", {"probe": probe})
         ctx.violation("kf_regex_no_isolation",
                       f"RegexTransformerPipeline: {probe['raised']} on an undecodable file escapes _process_file and aborts the codemod/run; "
                       f"failedFiles={probe['failed']}, change sets merged={probe['changed']} although the other files were rewritten",
-                      {"probe": probe, "theorem": "C10_regex_refuted", "witness": "corpus/C10/regex_undecodable.json"})
+                      {"probe": probe, "theorem": "C10_isolation_regex", "witness": "corpus/C10/regex_undecodable.json"})
     else:
         if not has_tries:
             ctx.mismatch("RegexTransformerPipeline.apply vs regex_apply_guards", "tables say a try block is missing but nothing escaped", {"probe": probe})
         if probe["failed"] != ["b.txt"] or probe["files"]["b.txt"] != "\xff\xfe hello\n":
             ctx.violation("kf_c10_regex_isolation", f"regex pipeline: bad file not isolated: {probe}", {"probe": probe})
-    # the XML pipeline: C10_xml_refuted (the re-read of the file after the try block is not guarded)
+    # the XML pipeline: C10_isolation_xml (the re-read of the file after the try block is not guarded)
     xg = tv.get("xml_apply_guards") or []
     xp = xml_pipeline_probe(ctx)
     ctx.count("xml_probe")
@@ -439,7 +505,7 @@ def run(ctx: core.Ctx):
         ctx.violation("kf_xml_reread_no_isolation",
                       f"XMLTransformerPipeline: {xp[escaped[0]]['raised']} on {escaped} escapes apply (the file is re-read with "
                       f".decode('utf-8') outside the try block after SAX parsed it); a malformed file is handled: {xp.get('broken.xml')}",
-                      {"xml_probe": xp, "theorem": "C10_xml_refuted", "witness": "corpus/C10/xml_latin1.json"})
+                      {"xml_probe": xp, "theorem": "C10_isolation_xml", "witness": "corpus/C10/xml_latin1.json"})
     else:
         if not xml_tries:
             ctx.mismatch("XMLTransformerPipeline.apply vs xml_apply_guards", "tables say a read is unguarded but nothing escaped", {"xml_probe": xp})
@@ -473,7 +539,8 @@ def replay(ctx, body):
     if kind in CONTENT_FAULTS:
         proj[bad] = fault_content(kind, files, bad)
     core.write_tree(root, proj)
-    ref = R.run(ref_root, list(pair))
+    _ISSUES[ref_root] = _ISSUES[root] = rc.sonar_issues(files)
+    ref = R.run(ref_root, list(pair), sonar_args(ref_root, pair))
     r = run_cli_with_fault(R, root, pair, kind, bad)
     ok, rows_f, rows_r = compare(ctx, pt, r, ref, root, ref_root, core.read_tree(root), core.read_tree(ref_root))
     print("exit status:", r["rc"], "| isolation holds:", ok)
